@@ -49,6 +49,13 @@ fn compare<const D: usize>(a: &SampleGenerator<D>, b: &SampleGenerator<D>, c: &C
     if a.get_dimension() != b.get_dimension() || a.get_dod().to_bits() != b.get_dod().to_bits() || a.get_num_edges() != b.get_num_edges() || a.get_smallest_dod().to_bits() != b.get_smallest_dod().to_bits() {
         fail!(format!("{how}:reported-quantities"), "{how}: restored sampler reports dimension {} dod {} edges {} (original {} {} {})", b.get_dimension(), b.get_dod(), b.get_num_edges(), a.get_dimension(), a.get_dod(), a.get_num_edges());
     }
+    // the whole table through a channel that is independent of serde: the derived Debug text prints every f64 exactly
+    let (da, db) = (format!("{a:?}"), format!("{b:?}"));
+    if da != db {
+        let pos = da.bytes().zip(db.bytes()).position(|(x, y)| x != y).unwrap_or(0);
+        let lo = pos.saturating_sub(60);
+        fail!(format!("{how}:table-differs"), "{how}: Debug text of the restored sampler differs from the original near …{}… vs …{}…", &da[lo..(pos + 40).min(da.len())], &db[lo..(pos + 40).min(db.len())]);
+    }
     let (wa, wb): (Vec<u64>, Vec<u64>) = (a.iter_edge_weights().map(f64::to_bits).collect(), b.iter_edge_weights().map(f64::to_bits).collect());
     if wa != wb {
         fail!(format!("{how}:weights"), "{how}: edge weights differ after the round trip");
